@@ -62,8 +62,16 @@ def learn_nogood(ids):
     L = NOGOODS.setdefault(k, [])
     if ids in L: return
     L.append(ids); NG_STATS['learned'] += 1
+    if DEBUG_MODEL is None: NG_ORIGIN[ids] = NG_STATS['learned']
 def reset_nogoods():
     NOGOODS.clear(); NG_STATS['learned'] = 0; NG_STATS['hits'] = 0
+
+LAST_FALSE_SITE = [0]
+LAST_NG = [None]
+NG_ORIGIN = {}
+def _dbg_false(n):
+    LAST_FALSE_SITE[0] = n
+    return FALSE
 
 def And(*xs):
     out = []; seen = set()
@@ -73,7 +81,7 @@ def And(*xs):
     while stack:
         x = stack.pop()
         if x is TRUE: continue
-        if x is FALSE: return FALSE
+        if x is FALSE: return _dbg_false(1)
         if x.op == 'and':
             stack.extend(reversed(x.args)); continue
         if x.id in seen: continue
@@ -91,7 +99,7 @@ def And(*xs):
                 if p is None or p[0] > a[1]: neg[a[0]] = (a[1], x)
                 continue
         n = _neg_id(x)
-        if n is not None and n in seen: return FALSE
+        if n is not None and n in seen: return _dbg_false(2)
         seen.add(x.id); out.append(x)
         if x.op == 'or' or (x.op == 'not' and x.args[0].op == 'and'):
             if comp is None: comp = []
@@ -100,7 +108,7 @@ def And(*xs):
         for sl, (j, x) in pos.items():
             if neg is not None:
                 q = neg.get(sl)
-                if q is not None and q[0] <= j: return FALSE
+                if q is not None and q[0] <= j: return _dbg_false(3)
             out.append(x); seen.add(x.id)
     if neg is not None:
         for sl, (j, x) in neg.items():
@@ -142,12 +150,13 @@ def And(*xs):
                     rem.append(l)
             if sat:
                 out = [o for o in out if o is not x]; seen.discard(x.id); changed = True
-            elif len(rem) == 0: return FALSE
+            elif len(rem) == 0: return _dbg_false(4)
             elif len(rem) < len(lits):
                 out = [o for o in out if o is not x]; seen.discard(x.id); changed = True
                 if isneg: out.append(Not(rem[0]) if len(rem) == 1 else Not(_and_raw(rem)))
                 else: out.append(rem[0] if len(rem) == 1 else _or_raw(rem))
         if changed: return And(*out)
+    if DEBUG_MODEL is not None and False: pass
     if not out: return TRUE
     if len(out) == 1: return out[0]
     if NOGOODS:
@@ -156,9 +165,21 @@ def And(*xs):
             if L:
                 for ng in L:
                     if ng <= seen:
-                        NG_STATS['hits'] += 1; return FALSE
+                        NG_STATS['hits'] += 1; LAST_NG[0] = ng; return _dbg_false(5)
     out.sort(key=lambda e: e.id)
     return _mk('and', tuple(out), 'B')
+
+_And_impl = And
+def And(*xs):
+    r = _And_impl(*xs)
+    if DEBUG_MODEL is not None and r is FALSE and all(evaluate(x, DEBUG_MODEL, DEBUG_CACHE) for x in xs):
+        import traceback
+        if LAST_FALSE_SITE[0] == 5 and not CHECKED.get(LAST_NG[0]):
+            CHECKED[LAST_NG[0]] = 1
+            byid = {e.id: e for e in _tab.values()}
+            print('NOGOOD', sorted(LAST_NG[0]), 'origin', NG_ORIGIN.get(LAST_NG[0]), [(i, evaluate(byid[i], DEBUG_MODEL, DEBUG_CACHE), show(byid[i], 2)[:150]) for i in LAST_NG[0]])
+        print('UNSOUND AND -> FALSE at site', LAST_FALSE_SITE[0], [show(x, 3)[:200] for x in xs]); traceback.print_stack(limit=6)
+    return r
 
 def _and_raw(xs):
     xs = sorted(xs, key=lambda e: e.id)
@@ -230,6 +251,9 @@ def Ite(c, a, b):
     return _mk('ite', (c, a, b), a.sort)
 
 CSLIMIT = 24
+DEBUG_MODEL = None
+DEBUG_CACHE = {}
+CHECKED = {}
 def consts(e):
     """{constant: guard} if e is a (normalised) choice among constants, else None"""
     if e.op == 'c': return {e.val: TRUE}
@@ -250,6 +274,9 @@ def consts(e):
 def from_cases(d):
     """canonical node for a choice among constants with mutually exclusive guards"""
     if not d: return ZERO
+    if DEBUG_MODEL is not None and not any(evaluate(g, DEBUG_MODEL, DEBUG_CACHE) for g in d.values()):
+        import traceback
+        print('NON-EXHAUSTIVE CASES', {k: show(g, 2)[:120] for k, g in d.items()}); traceback.print_stack(limit=9)
     ks = sorted(d)
     if len(ks) == 1: return BV(ks[0])
     e = BV(ks[-1])
